@@ -184,6 +184,9 @@ def obtain_grid_or_torus(parsed, periodic):
                 name))
 
     G = networkx.grid_graph(dimensions, periodic=periodic)
+    # a side of length 1 of a torus is a cycle of length 1:
+    # it contributes no edge to a simple graph
+    G.remove_edges_from(list(networkx.selfloop_edges(G)))
     G = Graph.from_networkx(G)
     G.name = "{} graph of dimension {}".format(name, dimensions)
     return G
